@@ -163,11 +163,12 @@ type Cluster struct {
 	// optional overrides for hostile control-connection answers: return nil to answer normally
 	SystemOverride func(c *Conn, table string) message.Message
 	// optional interceptor for every frame (after logging); return true if it handled the frame
-	Intercept   func(c *Conn, hdr *frame.Header, rawBody []byte) bool
-	OptionsMute int32                    // when 1, OPTIONS on muted connections are swallowed (always the case); kept for clarity
-	optionsSeen sync.Map                 // conn id → *int32 count of OPTIONS received
-	ever        sync.Map                 // peer address → *Conn, for every connection ever accepted
-	slowUse     map[string]time.Duration // canonical keyspace → delay before USE is answered
+	Intercept      func(c *Conn, hdr *frame.Header, rawBody []byte) bool
+	HoldUnprepared int32                    // when 1, the automatic UNPREPARED answers to EXECUTE are held until ReleaseHeld()
+	OptionsMute    int32                    // when 1, OPTIONS on muted connections are swallowed (always the case); kept for clarity
+	optionsSeen    sync.Map                 // conn id → *int32 count of OPTIONS received
+	ever           sync.Map                 // peer address → *Conn, for every connection ever accepted
+	slowUse        map[string]time.Duration // canonical keyspace → delay before USE is answered
 }
 
 var clusterSeq int32
@@ -779,7 +780,7 @@ func (x *Conn) handle(hdr *frame.Header, raw []byte) {
 	case *message.Execute:
 		id := hex.EncodeToString(m.QueryId)
 		if !x.Host.Knows(id) {
-			x.sendMsg(hdr.StreamId, &message.Unprepared{ErrorMessage: "Prepared query with ID " + id + " not found " + tok, Id: m.QueryId}, Outcome{Name: "Unprepared"}, "reply")
+			x.sendMsg(hdr.StreamId, &message.Unprepared{ErrorMessage: "Prepared query with ID " + id + " not found " + tok, Id: m.QueryId}, Outcome{Name: "Unprepared", Hold: atomic.LoadInt32(&x.Host.c.HoldUnprepared) == 1}, "reply")
 			return
 		}
 		x.data(hdr, body, raw, tok, n, "")
